@@ -107,3 +107,74 @@ Definition P_hm (i : input) (os : list hobs) : bool :=
   P i (map h_obs os)
   && (negb (ids_distinct (i_hooks i))
       || T_from i (spec_init (i_hooks i)) [] false false (i_ops i) os).
+
+(* ------------------------------------------------------------------ reference counting, by (hook, binding)
+
+   Text: "A crontab keeps firing while at least one BINDING is registered for it and stops
+   when the LAST one is removed" - over "all sets of hooks sharing or not sharing crontabs".
+   A binding is a schedule binding OF A HOOK: two hooks that both have, say, an unnamed first
+   binding on "*/5 * * * *" have two bindings on that crontab; when one of the hooks disables
+   its schedule bindings the crontab keeps firing for the other.  This clause says it without
+   the ids the implementation files the registrations under: a crontab has a cron entry (one,
+   never two) iff it is parsable and SOME ENABLED (hook, binding) HAS IT - whatever names,
+   positions in their hooks' schedule lists, crontabs and queues bindings share - or an id
+   registered for it by hand (OAdd) has not been removed (ORemove).
+
+   Ids appear in one place only: an OAdd / ORemove that names the id of a hook's binding
+   ([meddles]) takes that binding's registration away (or puts it back) behind the hook's back;
+   what "registered" means from there on is what C11_Spec.P says about (crontab, id) pairs, and
+   this clause stops judging. *)
+Fixpoint enabled_has (c : ct) (hooks : list (list binding)) (en : list bool) : bool :=
+  match hooks, en with
+  | bs :: hr, e :: er => (e && existsb (fun b => ct_eqb (b_crontab b) c) bs) || enabled_has c hr er
+  | _, _ => false
+  end.
+(* which hooks have their schedule bindings enabled *)
+Definition en_step (en : list bool) (o : op) : list bool :=
+  match o with
+  | OEnable h => set_nth (N.to_nat h) true en
+  | ODisable h => set_nth (N.to_nat h) false en
+  | _ => en
+  end.
+(* the pairs registered by hand *)
+Definition hand_step (hand : list (ct * N)) (o : op) : list (ct * N) :=
+  match o with
+  | OAdd c i => reg_add (c, i) hand
+  | ORemove c i => reg_remove (c, i) hand
+  | _ => hand
+  end.
+Definition binding_ids (hooks : list (list binding)) : list N := flat_map (map b_id) hooks.
+Definition meddles (hooks : list (list binding)) (o : op) : bool :=
+  match o with
+  | OAdd _ i | ORemove _ i => mem_N i (binding_ids hooks)
+  | _ => false
+  end.
+
+Definition check_cron_bind (valid : ct -> bool) (alphabet : list ct) (hooks : list (list binding))
+           (en : list bool) (hand : list (ct * N)) (o : obs) : bool :=
+  forallb (fun c => Nat.eqb (count_fires c (o_cron o))
+                            (if valid c && (enabled_has c hooks en || has_binding c hand) then 1 else 0)%nat)
+          alphabet.
+
+(* along the operations; [stopped] as in C11_Spec.P_from (which string a cron entry sends is
+   learnt by running its job: not judged once the manager is stopped) *)
+Fixpoint B_from (i : input) (en : list bool) (hand : list (ct * N)) (stopped : bool)
+         (ops : list op) (os : list hobs) : bool :=
+  match ops, os with
+  | [], [] => true
+  | o :: ops', ho :: os' =>
+      if meddles (i_hooks i) o then Nat.eqb (length ops') (length os')
+      else
+        let en' := en_step en o in
+        let hand' := hand_step hand o in
+        let stopped' := match o with OStop => true | _ => stopped end in
+        (stopped' || check_cron_bind (valid_of (i_invalid i)) (i_alphabet i) (i_hooks i) en' hand' (h_obs ho))
+        && B_from i en' hand' stopped' ops' os'
+  | _, _ => false
+  end.
+
+(* the predicate of the operator-level class, on the case as the operator sees it (the hooks'
+   configurations loaded: [i] carries the ids the config loader gave the bindings) *)
+Definition P_op (i : input) (os : list hobs) : bool :=
+  P_hm i os
+  && B_from i (map (fun _ => false) (i_hooks i)) [] false (i_ops i) os.
